@@ -833,10 +833,15 @@ class Loops(object):
                 it.assign(g.target, x, sub)
                 if all(it.truth(it.eval(c, sub)) for c in g.ifs):
                     out.append(it.eval(e.elt, sub))
-            return out
+            return GenItems(out) if kind == 'gen' else out
         # symbolic sequence
         n, item = self.seq_view(it, iterable)
         return self.world.axioms.sym_comprehension(it, e, g, frame, n, item)
+
+
+class GenItems(list):
+    """ the items a generator expression over a sequence of known length yields, already computed (the element expressions of the
+        subset have no effects); next() takes them from the front """
 
 
 class LoopSpec(object):
